@@ -619,6 +619,12 @@ func TestManySignaturesDER(t *testing.T) {
 							isSmall = true
 						}
 					}
+					// the fork's own verifier sees every third signature (a fault of its arithmetic that depends on the VALUES of
+					// the intermediate scalars - e.g. two of them differing in length - is met by volume only)
+					if i%3 == 0 && !patecdsa.VerifyASN1(&pk.PublicKey, digest, der) {
+						report("C13/many/own-signature-rejected", "signature %d on %s made by this package is rejected by this package's VerifyASN1 (crypto/ecdsa: %v): %x", i, c.Params().Name, stdecdsa.VerifyASN1(std, digest, der), der)
+						break
+					}
 					// the standard verifier sees every signature with a short r or s, every malformed-looking one, and every 8th of the rest
 					if (isSmall || len(der) <= 8 || i%8 == 0) && !stdecdsa.VerifyASN1(std, digest, der) {
 						report("C13/many/signasn1-rejected-by-std", "signature %d on %s is rejected by crypto/ecdsa.VerifyASN1: %x", i, c.Params().Name, der)
@@ -695,6 +701,94 @@ func TestVerifyAfterVerify(t *testing.T) {
 		}
 		s.Sample(func() any {
 			return map[string]any{"curve": c.Params().Name, "r": fmt.Sprintf("%x", r), "s": fmt.Sprintf("%x", sv)}
+		})
+	})
+}
+
+// TestChosenNonceForgeries: signatures built by the key holder with a CHOSEN nonce k, so that r = (kG).x mod N has
+// leading zero bytes, and then with r replaced by values that agree with it in the low bytes only: r' = r + t*2^(8j).
+// (s is computed for r', so the verifier recomputes exactly kG; a comparison that looks at fewer bytes than r has
+// accepts.) Every pair is compared with crypto/ecdsa, through Verify and through VerifyASN1.
+func TestChosenNonceForgeries(t *testing.T) {
+	s := rt.S("chosen-nonce-forgeries").SetRule("per case a key on one of four curves and a digest; nonce k searched (<= 4000 tries) until (kG).x mod N is at least one byte short; pairs (r', k^-1(e + r'd)) for r' = r (valid) and r' = r + t*2^(8j), j in {size-1, size-2, size/2, 1}, t in {1, 0x7f, 0xff} (skipped when >= N); oracle: fork Verify and VerifyASN1 == crypto/ecdsa. non-trivial = every r' != r; distinct by (curve, key, digest, r')")
+	rt.Check(t, 30, 6000, func(t *rapid.T) {
+		c := gen.Pick(t, curves, "curve")
+		pk, sk := drawKey(t, c)
+		n := c.Params().N
+		size := (n.BitLen() + 7) / 8
+		digest := gen.Digest(t, "digest")
+		// e as crypto/ecdsa derives it (leftmost bits of the digest)
+		e := new(big.Int).SetBytes(digest)
+		if len(digest) > size {
+			e.SetBytes(digest[:size])
+		}
+		if excess := len(digest)*8 - n.BitLen(); len(digest) <= size && excess > 0 {
+			e.Rsh(e, uint(excess))
+		} else if len(digest) > size {
+			if ex := size*8 - n.BitLen(); ex > 0 {
+				e.Rsh(e, uint(ex))
+			}
+		}
+		stream := rt.NewDRBG(gen.Seed().Draw(t, "nonces"))
+		var k, r *big.Int
+		for try := 0; try < 4000; try++ {
+			kb := make([]byte, size+8)
+			if _, err := io.ReadFull(stream, kb); err != nil {
+				t.Fatalf("harness: %v", err)
+			}
+			kk := new(big.Int).SetBytes(kb)
+			kk.Mod(kk, new(big.Int).Sub(n, big.NewInt(1))).Add(kk, big.NewInt(1))
+			x, _ := c.ScalarBaseMult(kk.Bytes())
+			x.Mod(x, n)
+			if x.Sign() != 0 && len(x.Bytes()) < size {
+				k, r = kk, x
+				break
+			}
+		}
+		if k == nil {
+			t.Skip("no nonce with a short r found")
+		}
+		kinv := new(big.Int).ModInverse(k, n)
+		sign := func(rp *big.Int) *big.Int {
+			sv := new(big.Int).Mul(rp, sk.D)
+			sv.Add(sv, e).Mul(sv, kinv).Mod(sv, n)
+			return sv
+		}
+		if !stdecdsa.Verify(&sk.PublicKey, digest, r, sign(r)) {
+			t.Fatalf("harness: the signature built with the chosen nonce is not valid for crypto/ecdsa (curve %s, digest %d bytes)", c.Params().Name, len(digest))
+		}
+		cands := []*big.Int{r}
+		for _, j := range []int{size - 1, size - 2, size / 2, 1} {
+			for _, tv := range []int64{1, 0x7f, 0xff} {
+				rp := new(big.Int).Add(r, new(big.Int).Lsh(big.NewInt(tv), uint(8*j)))
+				if rp.Cmp(n) < 0 {
+					cands = append(cands, rp)
+				}
+			}
+		}
+		for _, rp := range cands {
+			sv := sign(rp)
+			if sv.Sign() == 0 {
+				continue
+			}
+			s.Eval()
+			if rp.Cmp(r) != 0 {
+				s.Nontrivial([]byte(c.Params().Name), pk.X.Bytes(), digest, rp.Bytes())
+			}
+			want := stdecdsa.Verify(&sk.PublicKey, digest, rp, sv)
+			if got := patecdsa.Verify(&pk.PublicKey, digest, rp, sv); got != want {
+				rt.Fail(t, "C13/chosen-nonce/verify-verdict", "%s: (r', s) with r' = %x (the true r is %x, %d bytes) and s computed for r': fork %v, crypto/ecdsa %v", c.Params().Name, rp, r, len(r.Bytes()), got, want)
+				return
+			}
+			der := derSeq(derInt(rp), derInt(sv))
+			if got, w := patecdsa.VerifyASN1(&pk.PublicKey, digest, der), stdecdsa.VerifyASN1(&sk.PublicKey, digest, der); got != w {
+				rt.Fail(t, "C13/chosen-nonce/verifyasn1-verdict", "%s: DER of (r' = %x, s): fork %v, crypto/ecdsa %v", c.Params().Name, rp, got, w)
+				return
+			}
+		}
+		s.Class(c.Params().Name)
+		s.Sample(func() any {
+			return map[string]any{"curve": c.Params().Name, "r": fmt.Sprintf("%x", r), "candidates": len(cands)}
 		})
 	})
 }
